@@ -40,7 +40,16 @@ func (b gswBuilder) ParseConfig(json.RawMessage) (serviceconfig.LoadBalancingCon
 	return &gswConfig{}, nil
 }
 
+// gswHeld is a NewSubConn call held inside the parent ClientConn.
+type gswHeld struct {
+	release chan struct{}
+	done    chan struct{}
+}
+
 type gswHarness struct {
+	hold     bool             // the next cc.NewSubConn is held until released
+	holdChild int
+	held     map[int]*gswHeld // by SubConn id
 	bal      *gracefulswitch.Balancer
 	mu       sync.Mutex // guards ev (the swap goroutine closes the old policy concurrently)
 	ev       []string
@@ -158,6 +167,14 @@ func (cc *gswCC) NewSubConn(_ []resolver.Address, o balancer.NewSubConnOptions) 
 	h.scSerial++
 	sc := &gswSC{h: h, id: h.scSerial, listener: o.StateListener}
 	h.scs[sc.id] = sc
+	if h.hold {
+		// the call stays inside the parent (as it would waiting for the channel's mutex) until `nsce`
+		h.hold = false
+		hd := &gswHeld{release: make(chan struct{}), done: make(chan struct{})}
+		h.held[sc.id] = hd
+		h.rec(fmt.Sprintf("held%d:%d", sc.id, h.holdChild))
+		<-hd.release
+	}
 	return sc, nil
 }
 func (cc *gswCC) RemoveSubConn(balancer.SubConn) {}
@@ -189,7 +206,7 @@ func init() {
 		balancer.Register(gswBuilder{i})
 	}
 	register("s_gsw", func() SHandler {
-		h := &gswHarness{kids: map[int]*gswChild{}, scs: map[int]*gswSC{}, script: "-"}
+		h := &gswHarness{kids: map[int]*gswChild{}, scs: map[int]*gswSC{}, script: "-", held: map[int]*gswHeld{}}
 		gswCur = h
 		h.bal = gracefulswitch.NewBalancer(&gswCC{h: h}, balancer.BuildOptions{})
 		return h
@@ -197,6 +214,11 @@ func init() {
 }
 
 func (h *gswHarness) Close() {
+	for _, hd := range h.held {
+		close(hd.release)
+	}
+	h.held = map[int]*gswHeld{}
+	settle()
 	if !h.closed {
 		h.bal.Close()
 	}
@@ -297,6 +319,20 @@ func (h *gswHarness) Op(f []string) string {
 			return "bad-op"
 		}
 		c.newSubConn()
+	case "nscb":
+		c := h.kids[lbAtoi(f[1])]
+		if c == nil {
+			return "bad-op"
+		}
+		h.hold, h.holdChild = true, c.id
+		go c.newSubConn()
+	case "nsce":
+		hd := h.held[lbAtoi(f[1])]
+		if hd == nil {
+			return "bad-op"
+		}
+		delete(h.held, lbAtoi(f[1]))
+		close(hd.release)
 	case "scst":
 		sc := scOK(f[1])
 		if sc == nil {
@@ -330,7 +366,10 @@ func (h *gswHarness) Op(f []string) string {
 	default:
 		return "bad-op"
 	}
-	settle() // join the goroutine that closes a swapped-out policy
+	settle() // join the goroutine that closes a swapped-out policy (and let a held NewSubConn reach the parent)
+	if f[0] == "nscb" {
+		h.hold = false // the call was refused before it reached the parent
+	}
 	h.mu.Lock()
 	out := gswCanon(h.ev)
 	h.ev = nil
